@@ -193,7 +193,7 @@ func run(c *runner.Ctx) {
 			cars := []carrier.Kind{carrier.StructRM}
 			if carrier.TagOK(rules) {
 				// (also after a call that overrode the field's rule for that call only: the tag's message is the one reported)
-				cars = append(cars, carrier.StructTag, carrier.StructTagHist)
+				cars = append(cars, carrier.StructTag, carrier.StructTagHist, carrier.StructTagOtherTag, carrier.StructFirstOtherTag, carrier.StructTagLocalFn, carrier.StructFirstOverride, carrier.StructWrappers)
 			}
 			if !rc.structs {
 				cars = append(cars, carrier.Var, carrier.Map, carrier.SliceMap, carrier.Url)
@@ -352,7 +352,7 @@ func run(c *runner.Ctx) {
 				}
 				cars := []carrier.Kind{carrier.StructRM, carrier.Var}
 				if carrier.TagOK(rules) {
-					cars = append(cars, carrier.StructTag)
+					cars = append(cars, carrier.StructTag, carrier.StructTagOtherTag)
 				}
 				if k := zero.Kind(); k != reflect.Slice && k != reflect.Array {
 					cars = append(cars, carrier.Map)
@@ -586,7 +586,7 @@ func main() {
 	runner.Main(runner.Config{
 		Property:  "C15",
 		Technique: "bounded-exhaustive enumeration: rule x message x carrier plumbing sweep and all clause-kind sequences up to length 5 realised by real validation calls, vs extractor model",
-		Rule: "(1) 47 (rule, violating value) cases x 10 messages (none, ASCII, CJK, mixed, 1-byte, with '=', quoted commas) x carriers {struct tag, struct per-call, Var, map, []map, URL}: one clause, label by CJK content, message verbatim, " +
+		Rule: "(1) 47 (rule, violating value) cases x 10 messages (none, ASCII, CJK, mixed, 1-byte, with '=', quoted commas) x carriers {struct tag, struct tag after a call under another tag name / first seen under another tag name / after a call with local functions / first seen by an overriding call / every spelling of the entry point, struct per-call, Var, map, []map, URL}: one clause, label by CJK content, message verbatim, " +
 			"default wording table, echoed input, path; (2) every sequence over {Chinese-labelled, English-labelled, default-worded, unlabelled}^k followed by 0..2 group clauses, k+g<=5, built as a synthesised struct and validated; " +
 			"GetOnlyExplainErr(err) = explanation parts of the labelled clauses joined by '; ', and what it returned still reads the same after later extractor calls; non-trivial = custom message / sequences mixing >=2 label kinds",
 		Assumptions: []string{"messages and values contain neither '; ' nor the label words", "clause parser internal/errparse"},
